@@ -47,6 +47,10 @@ pub enum Scenario {
     SlowChain { delay_ms: u16 },
     /// the response completes at once; then further reads, each after a wait
     Complete { framing: u8, payload: u16, extra_reads: Vec<(u16, u16)> },
+    /// a request with an overall timeout outlives its deadline and is dropped while its watchdog thread is held between its
+    /// decision and its action; a second request without any deadline then runs to a peer that pauses `pause_ms` inside
+    /// the body. Whatever the first request's threads still do, they do it to the first request's connection only.
+    Successor { pause_ms: u16 },
 }
 
 #[derive(Debug, Clone, Serialize, Deserialize, PartialEq, Eq, Hash)]
@@ -284,10 +288,85 @@ fn client_part(case: &Case, url: &str, upload: bool, t0: Instant, obs: &mut Obse
     }
 }
 
+/// See Scenario::Successor.
+fn check_successor(pause_ms: u16, ctx: &mut Ctx) -> Outcome {
+    use std::sync::{Condvar, Mutex};
+    ctx.nontrivial = true;
+    ctx.label("successor-request-after-a-held-watchdog");
+    let head = b"HTTP/1.1 200 OK\r\nContent-Length: 10\r\n\r\n";
+    let mk = |first: &[u8], pause: u64, second: &[u8]| {
+        script_server(vec![vec![Step::ReadRequest, Step::Send([&head[..], first].concat()), Step::SleepMs(pause), Step::Send(second.to_vec()), Step::Stall]])
+    };
+    let (mut a, mut b) = match (mk(b"01234", 250, b"56789"), mk(b"abcde", pause_ms as u64, b"fghij")) {
+        (Ok(a), Ok(b)) => (a, b),
+        _ => {
+            eprintln!("C13: cannot set up the peers");
+            std::process::exit(2);
+        }
+    };
+    // (held, release)
+    let gate = Arc::new((Mutex::new((false, false)), Condvar::new()));
+    let g2 = gate.clone();
+    attohttpc::verif_hooks::set_sched_handler(Some(Arc::new(move |label: &'static str| {
+        if label == "wd:rx-dropped" {
+            let (m, cv) = &*g2;
+            let mut st = m.lock().unwrap();
+            if st.0 {
+                return;
+            }
+            st.0 = true;
+            cv.notify_all();
+            let deadline = Instant::now() + Duration::from_secs(4);
+            while !st.1 && Instant::now() < deadline {
+                st = cv.wait_timeout(st, Duration::from_millis(50)).unwrap().0;
+            }
+        }
+    })));
+    // the first request: its deadline (150 ms) passes while the peer pauses; its outcome is not this scenario's subject
+    {
+        let r = attohttpc::get(format!("http://{}/first", a.addr)).proxy_settings(no_proxy()).timeout(Duration::from_millis(150)).read_timeout(Duration::from_secs(5)).send();
+        if let Ok(resp) = r {
+            let _ = resp.bytes();
+        }
+    }
+    let held = {
+        let (m, cv) = &*gate;
+        let mut st = m.lock().unwrap();
+        let deadline = Instant::now() + Duration::from_secs(2);
+        while !st.0 && Instant::now() < deadline {
+            st = cv.wait_timeout(st, Duration::from_millis(20)).unwrap().0;
+        }
+        st.0
+    };
+    ctx.label(if held { "successor:watchdog-held-past-the-drop" } else { "successor:watchdog-not-held" });
+    // the successor: no overall timeout, a generous read timeout, a well-behaved peer
+    let t0 = Instant::now();
+    let res = attohttpc::get(format!("http://{}/second", b.addr)).proxy_settings(no_proxy()).read_timeout(Duration::from_secs(5)).send();
+    {
+        let (m, cv) = &*gate;
+        m.lock().unwrap().1 = true;
+        cv.notify_all();
+    }
+    std::thread::sleep(Duration::from_millis(60));
+    let body = res.map_err(|e| format!("send(): {e:?}")).and_then(|r| r.bytes().map_err(|e| format!("bytes(): {e:?}")));
+    let took = t0.elapsed().as_millis();
+    attohttpc::verif_hooks::set_sched_handler(None);
+    a.finish();
+    b.finish();
+    match body {
+        Ok(v) if v == b"abcdefghij" => Outcome::Pass,
+        other => Outcome::fail(
+            "C13:successor-cut",
+            format!("a request without any deadline, to a peer that paused {pause_ms} ms inside a 10-byte body, ended after {took} ms with {:?} (an earlier request's watchdog thread was released meanwhile; held: {held})", other.map(|v| String::from_utf8_lossy(&v).into_owned())),
+        ),
+    }
+}
+
 fn run_once(case: &Case) -> Result<Observed, String> {
     let baseline = proc_counts();
     // server scripts
     let (scripts, upload): (Vec<Vec<Step>>, bool) = match &case.scenario {
+        Scenario::Successor { .. } => unreachable!("handled by check_successor"),
         Scenario::Stall { point, drip_ms } => {
             let (prompt, rest) = split_response(*point);
             let mut s = vec![];
@@ -436,7 +515,7 @@ impl Property for C13 {
     const ID: &'static str = "C13";
     const RULE: &'static str = "generated fault sequences on real loopback sockets: overall timeout T in [150, 500] ms (or unset, or 1 ms i.e. expired before the connection exists, or 2.5 s i.e. far above R), read timeout R either >> T or 100-200 ms; stall point in {server never reads a 24 MiB upload, before any reply byte, \
 inside the status line, inside a header, after the head, inside a chunk-size line, inside chunk data, between chunks, inside a length body, inside a close-delimited body}; stall kind {silent, one byte every r ms with r < R}; redirect chains whose hops \
-are individually fast but together exceed T; a silence longer than R inside the body followed by a drip faster than R with a caller that reads again after every read error that comes before T (everything still ends by T + margin); and the negative family: responses of all three framings that complete at once, followed by 0..5 further reads some of which happen after T, then drop. Optional schedule perturbation: delays injected at the six \
+are individually fast but together exceed T; a silence longer than R inside the body followed by a drip faster than R with a caller that reads again after every read error that comes before T (everything still ends by T + margin); and the negative family: responses of all three framings that complete at once, followed by 0..5 further reads some of which happen after T, then drop; a successor request without any deadline sent while the watchdog thread of an earlier, overdue and dropped request is held between its decision and its action (the successor is never the one that is cut). Optional schedule perturbation: delays injected at the six \
 labelled points of the watchdog / reader (verif-hooks H3). Oracle S1-S4. non-trivial = the stall begins after the head, or drip-feeding, or a redirect chain, or >= 1 read after end-of-body; distinct by case";
 
     fn assumptions() -> Vec<String> {
@@ -496,6 +575,7 @@ labelled points of the watchdog / reader (verif-hooks H3). Oracle S1-S4. non-tri
             v.push(Case { scenario: Scenario::Complete { framing, payload: 400, extra_reads: vec![(10, 0)] }, t_ms: 300, r_ms: 5000, reads: vec![4096], sched: vec![], tunnel: false, api: 0, prepared: 1 });
             v.push(Case { scenario: Scenario::Complete { framing, payload: 400, extra_reads: vec![(10, 0)] }, t_ms: 300, r_ms: 5000, reads: vec![4096], sched: vec![], tunnel: false, api: 0, prepared: 2 });
         }
+        v.push(Case { scenario: Scenario::Successor { pause_ms: 400 }, t_ms: 150, r_ms: 5000, reads: vec![], sched: vec![], tunnel: false, api: 0, prepared: 0 });
         v.push(Case { scenario: Scenario::Stall { point: StallPoint::ConnectNamed, drip_ms: 0 }, t_ms: 300, r_ms: 5000, reads: vec![4096], sched: vec![], tunnel: false, api: 0, prepared: 0 });
         // the connection attempt itself is never answered
         v.push(Case { scenario: Scenario::Stall { point: StallPoint::Connect, drip_ms: 0 }, t_ms: 300, r_ms: 5000, reads: vec![4096], sched: vec![], tunnel: false, api: 0, prepared: 0 });
@@ -564,6 +644,7 @@ labelled points of the watchdog / reader (verif-hooks H3). Oracle S1-S4. non-tri
                 .prop_map(|(point, drip_ms)| Scenario::StallThenDrip { point, stall_ms: 0, drip_ms }),
             5 => (0u8..3, prop_oneof![Just(0u16), 1u16..3000], proptest::collection::vec((1u16..5000, prop_oneof![3 => Just(0u16), 1 => 100u16..600]), 0..6))
                 .prop_map(|(framing, payload, extra_reads)| Scenario::Complete { framing, payload, extra_reads }),
+            1 => (150u16..600).prop_map(|pause_ms| Scenario::Successor { pause_ms }),
         ];
         (
             scenario,
@@ -611,6 +692,9 @@ labelled points of the watchdog / reader (verif-hooks H3). Oracle S1-S4. non-tri
     }
 
     fn check(case: &Case, ctx: &mut Ctx) -> Outcome {
+        if let Scenario::Successor { pause_ms } = &case.scenario {
+            return check_successor(*pause_ms, ctx);
+        }
         let t = case.t_ms as u128;
         let r = case.r_ms as u128;
         let sched_delay: u128 = case.sched.iter().map(|(_, d)| *d as u128).sum::<u128>() * 3;
@@ -705,6 +789,7 @@ labelled points of the watchdog / reader (verif-hooks H3). Oracle S1-S4. non-tri
                         timing_fail = Some(Outcome::fail("C13:chain-outlived-deadline", format!("{} hops were requested, at most {max_hops} fit into T; {describe}", obs.accepted)));
                     }
                 }
+                Scenario::Successor { .. } => unreachable!("handled by check_successor"),
                 Scenario::Complete { payload, extra_reads, .. } => {
                     ctx.label("complete");
                     ctx.nontrivial = !extra_reads.is_empty();
